@@ -50,6 +50,7 @@ static uint32_t g_prefix_len;
 static int g_trace;                  // replay mode: print every step
 static unsigned g_max_steps = 4000;
 static unsigned g_max_points = 3000;
+static int g_extended; // confirming re-run of an execution that hit the horizon: 12x the steps, choice points beyond the array are taken by default and not recorded
 static uint64_t g_tick_ns = 0;       // virtual time added per clock read
 static int g_starve = 96; // consecutive steps after which a thread is switched out for free when others are enabled
 static int g_spin = 64;   // consecutive steps alone (everyone else asleep) after which time passes to the next wake-up
@@ -251,17 +252,21 @@ static void schedule(void)
         int chosen = 0;
         if (n > 1) {
             uint32_t k = R->npoints;
-            if (k >= g_max_points) {
-                char d[1200];
-                describe_threads(d, sizeof d);
-                finish(ST_HORIZON, "step-horizon", d);
+            if (g_extended && k >= MAXPOINTS - 1) {
+                chosen = 0; // beyond what is recorded: default choice
+            } else {
+                if (k >= g_max_points) {
+                    char d[1200];
+                    describe_threads(d, sizeof d);
+                    finish(ST_HORIZON, "step-horizon", d);
+                }
+                if (k < g_prefix_len) {
+                    chosen = g_prefix[k];
+                    if (chosen >= n) finish(ST_DIVERGED, "replay-diverged", "recorded choice out of range while replaying a prefix");
+                }
+                R->pts[k].n = (uint8_t)n; R->pts[k].nE = (uint8_t)nE; R->pts[k].cur_in_E = (uint8_t)(me_en && !starving); R->pts[k].chosen = (uint8_t)chosen;
+                R->npoints = k + 1;
             }
-            if (k < g_prefix_len) {
-                chosen = g_prefix[k];
-                if (chosen >= n) finish(ST_DIVERGED, "replay-diverged", "recorded choice out of range while replaying a prefix");
-            }
-            R->pts[k].n = (uint8_t)n; R->pts[k].nE = (uint8_t)nE; R->pts[k].cur_in_E = (uint8_t)(me_en && !starving); R->pts[k].chosen = (uint8_t)chosen;
-            R->npoints = k + 1;
         }
         int c = cand[chosen];
         if (chosen >= nE) {
@@ -699,7 +704,8 @@ struct shared
     int npool;
     struct item pool[POOLCAP];
     // results
-    volatile unsigned long long executions, steps, points, maxpoints, truncated;
+    volatile unsigned long long executions, steps, points, maxpoints, truncated, long_runs;
+    volatile int livelock_confirmed, extensions;
     volatile unsigned long long status_count[8];
     volatile unsigned long long event_count[64];
     int nviol;
@@ -797,11 +803,38 @@ static void worker(int wid, struct result* res, struct result* res2)
             uint8_t full[MAXPREFIX];
             uint32_t n = res->npoints < MAXPREFIX ? res->npoints : MAXPREFIX;
             for (uint32_t i = 0; i < n; ++i) full[i] = res->pts[i].chosen;
-            g_max_steps *= (res->status == ST_HORIZON ? 1 : 1);
+            if (res->status == ST_HORIZON) {
+                // an execution that is merely long is not a livelock: before it is reported it is re-run alone with 12 times the
+                // step limit (default choices beyond the recorded ones).  Finishes -> not a violation (the search did not branch
+                // beyond the cap: exhaustive=false); other failure -> that failure; still running -> livelock.  After the first
+                // confirmed livelock of this configuration, or after 4 extensions that merely finished, no further extensions are run.
+                int ext = 0;
+                slock(); if (!S->livelock_confirmed && S->extensions < 4) { ext = 1; S->extensions++; } sunlock();
+                if (ext) {
+                    const unsigned ms = g_max_steps, mp = g_max_points;
+                    g_extended = 1; g_max_steps = ms * 12; g_max_points = MAXPOINTS - 1;
+                    run_one(res2, full, n);
+                    g_extended = 0; g_max_steps = ms; g_max_points = mp;
+                    if (res2->status == ST_HORIZON) { slock(); S->livelock_confirmed = 1; sunlock(); record_violation(res, &cur, 1); }
+                    else if (res2->status == ST_OK) { __atomic_fetch_add(&S->truncated, 1, __ATOMIC_RELAXED); __atomic_fetch_add(&S->long_runs, 1, __ATOMIC_RELAXED); }
+                    else {
+                        // the long run ends in a real failure: confirm that one by running it again with the same limits
+                        struct result* t = res; (void)t;
+                        g_extended = 1; g_max_steps = ms * 12; g_max_points = MAXPOINTS - 1;
+                        run_one(res, full, n);
+                        g_extended = 0; g_max_steps = ms; g_max_points = mp;
+                        if (res->status == res2->status && !strcmp(res->clause, res2->clause)) record_violation(res2, &cur, 1);
+                        else { slock(); S->unconfirmed++; sunlock(); }
+                        res->status = ST_HORIZON; // (expansion below is skipped for horizons anyway)
+                    }
+                } else if (S->livelock_confirmed) record_violation(res, &cur, 1);
+                else { __atomic_fetch_add(&S->truncated, 1, __ATOMIC_RELAXED); __atomic_fetch_add(&S->long_runs, 1, __ATOMIC_RELAXED); }
+            } else {
             run_one(res2, full, n);
             int same = (res2->status == res->status) && !strcmp(res2->clause, res->clause);
             if (same) record_violation(res, &cur, 1);
             else { slock(); S->unconfirmed++; sunlock(); }
+            }
         } else {
             slock();
             int f = 0;
@@ -960,7 +993,7 @@ int vs_main(int argc, char** argv)
     if (!f) { perror("out"); return 2; }
     int exhaustive = !S->capped && !S->stop && S->pending == 0 && !bad && !S->truncated;
     fprintf(f, "{\"scenario\":\"%s\",\"cost_model\":\"%s\",\"bound\":%d,\"jobs\":%d,\"executions\":%llu,\"steps\":%llu,\"choice_points\":%llu,\"max_choice_points\":%llu,", SC->name, g_delay_mode ? "delay" : "preemption", g_bound, jobs, S->executions, S->steps, S->points, S->maxpoints);
-    fprintf(f, "\"distinct_outcomes\":%d,\"outcome_overflow\":%llu,\"edges_covered\":%zu,\"exhaustive\":%s,\"worker_failures\":%d,\"unconfirmed\":%d,\"wall_s\":%.3f,", S->nout, S->out_overflow, edges, exhaustive ? "true" : "false", bad, S->unconfirmed, wall);
+    fprintf(f, "\"distinct_outcomes\":%d,\"outcome_overflow\":%llu,\"edges_covered\":%zu,\"exhaustive\":%s,\"worker_failures\":%d,\"unconfirmed\":%d,\"long_executions_not_livelocks\":%llu,\"wall_s\":%.3f,", S->nout, S->out_overflow, edges, exhaustive ? "true" : "false", bad, S->unconfirmed, (unsigned long long)S->long_runs, wall);
     fprintf(f, "\"params\":{");
     for (int i = 0; i < g_nparams; ++i) { fprintf(f, "%s", i ? "," : ""); json_str(f, g_params[i][0]); fputc(':', f); json_str(f, g_params[i][1]); }
     fprintf(f, "},\"status_counts\":{");
